@@ -181,21 +181,22 @@ theorem control_frames_acked (cfg : Cfg) (hd : DistinctIds cfg) (s : State) (u :
 /-- **The Spec's acknowledgement clauses hold on every run of the model** (and with them the whole of property C19 as
 the Spec decides it, the crash clause being void for a run that does not crash — `model_never_crashes`).  For every
 configuration meeting the side conditions (`CfgOK`: instantiated at the constants of the source tree; automatic fuel;
+CLIENT_CLOSED is not the ALL_MESSAGE_TYPES sentinel;
 `OrdPerm`: a Python `set` is iterated in some order, every element once — the driver uses insertion order and its
 reverse) and every history whose frames are read from connections (never from the manager's own table entry, uid 0 —
 every generated history is such), the verdict `Spec.runSpec` computes from the history and the model's own events has no
 C19 entry. -/
 theorem spec_ack_clause_passes_on_model (cfg : Cfg) (ok : CfgOK cfg) (hfuel : cfg.fuel = 0) (hperm : OrdPerm cfg)
-    (rs : List Round) (hwf : RoundsWF rs) :
+    (hmt : cfg.mtClosed ≠ cfg.allTypes) (rs : List Round) (hwf : RoundsWF rs) :
     (Spec.runSpec cfg rs (Pyrtma.Drv.Manager.modelRun cfg rs).1 none).errs.filter (·.1 == "C19") = [] :=
-  spec_passes_on_model ok hfuel hperm rs hwf "C19" (by simp [proven])
+  spec_passes_on_model ok hfuel hperm hmt rs hwf "C19" (by simp [proven]) (fun h => absurd h (by decide))
 
 /-- …and the abstract table the Spec ends with describes the model's final tables: same live connections, same module
     ids, flags, names, pids and subscriptions, same failure environment -/
 theorem spec_table_simulates_model (cfg : Cfg) (ok : CfgOK cfg) (hfuel : cfg.fuel = 0) (hperm : OrdPerm cfg)
-    (rs : List Round) (hwf : RoundsWF rs) :
+    (hmt : cfg.mtClosed ≠ cfg.allTypes) (rs : List Round) (hwf : RoundsWF rs) :
     Sim cfg ((List.zip rs (modelRounds cfg (init cfg) rs)).foldl (fun a p => Spec.round cfg a p.1 p.2) {}) (run cfg rs) :=
-  (rounds_ok ok hfuel hperm rs {} (init cfg) (init_sim ok hfuel) hwf).1.sim
+  (rounds_ok ok hfuel hperm hmt rs {} (init cfg) (init_sim ok hfuel hmt (ordOK_of_perm hperm)) hwf).1.sim
 
 /-! ### Non-vacuity -/
 def exState : State :=
